@@ -312,32 +312,6 @@ pub fn master(meta: &CheckMeta, tier: &str, seed: u64, extra_env: &[(String, Str
 /// assertion or one of the ownership tests (`ref_count == 1`, `ref_count > 1`): such a read cannot lose an update, and for a
 /// node that another thread can reach the count is >= 2 whatever the interleaving. Any non-atomic WRITE is reported.
 fn tsan_report_is_benign(block: &str) -> bool {
-    // One more benign shape, an artifact of how the ownership assumption is modelled: the acquire load that stands for "the
-    // ownership test synchronises with the release decrement" is a SECOND read placed in front of the code's own plain read of
-    // ref_count. The other thread's decrement can fall between the two: the model's load sees 2 (no edge), the code's read
-    // sees 1 and ts_subtree_edit goes on to write the node in place, which the detector then reports against the memcpy by
-    // which the other thread cloned the node BEFORE giving up its reference. Under the stated assumption that write is ordered
-    // behind the clone. Shape: a plain write whose innermost frame is ts_subtree_edit against a read by memcpy <-
-    // ts_subtree_clone <- ts_subtree_make_mut.
-    {
-        let ls: Vec<&str> = block.lines().map(|l| l.trim()).collect();
-        let mut accesses: Vec<(bool, Vec<&str>)> = vec![];
-        for (i, l) in ls.iter().enumerate() {
-            let low = l.to_lowercase();
-            if (low.starts_with("read of size") || low.starts_with("previous read of size") || low.starts_with("write of size") || low.starts_with("previous write of size")) && !low.contains("atomic") {
-                accesses.push((low.contains("write"), ls[i + 1..].iter().take_while(|f| f.starts_with('#')).take(4).copied().collect()));
-            }
-        }
-        if accesses.len() == 2 {
-            let w = accesses.iter().find(|a| a.0);
-            let r = accesses.iter().find(|a| !a.0);
-            if let (Some(w), Some(r)) = (w, r) {
-                let writer_ok = w.1.first().map_or(false, |f| f.contains(" ts_subtree_edit "));
-                let reader_ok = r.1.len() >= 3 && r.1[0].contains("memcpy") && r.1[1].contains("ts_subtree_clone") && r.1[2].contains("ts_subtree_make_mut");
-                if writer_ok && reader_ok { return true; }
-            }
-        }
-    }
     let mut lines = block.lines().peekable();
     let mut all_plain_ok = true;
     let mut saw_plain = false;
